@@ -91,10 +91,10 @@ def desc_of(o, seen=None):
     if o is None:
         return None
     if seen is None:
-        seen = set()
+        seen = ()
     if id(o) in seen:
-        return ["shared"]
-    seen.add(id(o))
+        return ["cycle"]
+    seen = seen + (id(o),)  # along the current path only: a node object that occurs twice is described twice, as CPython's walk does
     k = o.clsname
     if k == "ConstantExpression":
         return ["c"] + list(number(o.cur.get("value")))
